@@ -56,6 +56,7 @@ DEFAULT_KNOBS = Knobs(
     p_return_none_default=0.0,  # the returned default expression is None (Optional[...] return)
     p_boundary_doc=0.1,  # prose of an exact length around the wrap width, so that the break falls inside / next to the default sentence
     p_multi_line_summary=0.3,
+    p_indented_summary_line=0.0,  # continuation lines of a multi-line summary start with blanks (an indented note / bullet list)
     p_long_summary=0.15,
     hostile_strings=False,  # thorough: strings with interior full stop / quotes
     argparse_domain=False,  # restrict types to what argparse can express
@@ -106,6 +107,9 @@ class IRGen:
             for i in range(r.randint(1, 2)):
                 lines.append("Second part zqsum{} ".format(i) + self._words(r.randint(1, 8)))
             cls += "_multi"
+            if self.k.p_indented_summary_line and self.chance(self.k.p_indented_summary_line):
+                lines = lines[:1] + [r.choice(("    ", "  - ")) + l for l in lines[1:]]
+                cls += "_indented"
         return "\n".join(l.rstrip() for l in lines), cls
 
     def prose(self, name):
